@@ -257,7 +257,7 @@ Proof.
            split; [exact H|]. intros [H'|H']; [subst x; exact (Hn Hcs)|exact (Hn H')].
 Qed.
 
-(* clauses that are all new and pairwise different are all recorded, in order *)
+(* cclauses that are all new and pairwise different are all recorded, in order *)
 Lemma insert_all_fresh add : forall s, SS s -> NoDup add -> (forall x, In x add -> ~ In x s) ->
   snd (insert_all add s) = add.
 Proof.
@@ -311,7 +311,7 @@ Proof.
   intros x. rewrite G2. cbn [In]. tauto.
 Qed.
 
-(* ---------- semantics depends only on the set of clauses ---------- *)
+(* ---------- semantics depends only on the set of cclauses ---------- *)
 Lemma cs_sat_set s a b : (forall x, In x a <-> In x b) -> cs_sat s a = cs_sat s b.
 Proof.
   intros Heq. unfold cs_sat.
